@@ -426,7 +426,8 @@ def full_compile(files, main):
         return ("recursion", (type(ex).__name__, tb[-1].name, str(ex)[:200]))
     except Exception as ex:
         tb = traceback.extract_tb(ex.__traceback__)
-        return ("exception", (type(ex).__name__, tb[-1].name, str(ex)[:200]))
+        in_pass = any(fr.filename.endswith("dependency_checker.py") for fr in tb)
+        return ("exception", (type(ex).__name__, tb[-1].name, str(ex)[:200], in_pass))
     if errs:
         return ("errors", [[m.message for m in g] for g in errs])
     return ("ok", ir)
@@ -525,7 +526,11 @@ def module_cases(ctx, files, main, label, desc, graph_cases, order_cases):
         if has_cycle_error(o, "Dependency cycle") or has_cycle_error(o, "Import dependency cycle"):
             ctx.violation("false-cycle", "%s has no dependency cycle but the compiler says: %s" % (label, outcome_text(o)),
                           dict(kind="modules", files=files, main=main, outcome=outcome_text(o)), found_input=True)
-        if o[0] == "exception":
+        if o[0] == "exception" and o[1][3]:
+            ctx.violation("dependency-pass-exception:%s:%s" % (o[1][0], o[1][1]),
+                          "the dependency pass raised %s in %s on %s" % (o[1][0], o[1][1], label),
+                          dict(kind="modules", files=files, main=main, outcome=outcome_text(o)), found_input=True)
+        elif o[0] == "exception":
             ctx.count("later-pass-crash:%s:%s" % (o[1][0], o[1][1]))
         elif o[0] == "errors":
             ctx.count("rejected-later")
@@ -540,12 +545,12 @@ def module_cases(ctx, files, main, label, desc, graph_cases, order_cases):
     with OrderCapture() as cap:
         try:
             ir2, dbg, errs2 = _with_limit(COMPILE_LIMIT_S, lambda: compile_files(files, main, stop="resolve_field_references"))
-        except AssertionError as ex:
-            ir2, errs2 = None, None
         except _Alarm:
             ctx.violation("compile-timeout", "set_dependency_order did not finish on %s" % label,
                           dict(kind="modules", files=files, main=main), found_input=True)
             return
+        except Exception as ex:     # recorded per structure below (result None / "stuck")
+            ir2, errs2 = None, None
     for rec in cap.records:
         n = len(rec["names"])
         inp = coq_order_case(rec["names"], rec["deps"], rec["params"])
